@@ -4,18 +4,20 @@
                 _small_cholesky_solve_block / _small_cholesky_solve, _small_cholesky_factorize_solve_block for block sizes 1..6, compact
                 and triangular blocks, several blocks / tiles per model) with M = L L^T, L an ARBITRARY lower-triangular factor
                 with positive diagonal per tree (so M is an arbitrary SPD matrix with the model's block structure) and an
-                arbitrary right-hand side b: the stored factor is L (lemma chain, sqrt axiom s >= 0, s^2 = pivot), the
-                returned x satisfies M x = b row by row, d.M is untouched, and both entry points give the same x / qLD /
-                qLDiagInv (step1/step2 lemma used by C37).
+                arbitrary right-hand side b (sizes 5, 6: b = M w, w arbitrary): the returned x satisfies M x = b row by row, the
+                input matrix is untouched, factor_solve_i on scratch arrays (integrator call pattern) solves its system, and
+                both entry points leave the same x / qLD / qLDiagInv (step1 ; step2 lemma used by C37).
  ldl/<model>    the sparse L^T D L path (_factor_i_sparse: _qLD_acc, _qLDiag_div; _solve_LD_sparse_fused) reached through the same
-                host functions on chain / fork / Y dof trees and on a model mixing Cholesky blocks with an LDL region
+                host functions on chain / fork / Y / comb dof trees and on a model mixing Cholesky blocks with an LDL region
                 (qLD[:, qLD_block_total:]), M = U^T D U with U unit lower triangular on the tree's sparsity pattern and D > 0
-                arbitrary: stored factor = (U, D), qLDiagInv = 1 / D, M x = b, d.M untouched, both entry points agree, and
-                factor_solve_i on scratch arrays (the implicit-integration call pattern) solves the system it is given.
+                arbitrary: same claims.
  mulm/<model>   support.mul_m (sparse gather kernel, with / without the per-world skip mask, with an explicit M argument, and the
                 dense 3-D variant): res = M vec under MuJoCo's CSR map, skipped worlds keep res.
+Proof device (linalg_c21.Closer): every float a thread stores is named; a Laurent-polynomial normaliser PROPOSES a closed form
+over the parameters for each stored intermediate and the solver PROVES each proposal (for a sqrt: s >= 0, s^2 = v, L_ii > 0
+|- s = closed form) before the name is replaced; the final row queries are then small polynomial identities.
 The real put_model builds every index table (block layout, qLD_updates, level tables, M_mulm_*); the size thresholds of
-io.m_block_layout are lowered inside the check process for the ldl units so that 2..5-dof trees take the sparse path.
+io.m_block_layout are lowered inside the check process for the ldl units so that 2..6-dof trees take the sparse path.
 """
 
 from fractions import Fraction
@@ -51,6 +53,8 @@ LDL = {
   "chain4": (la.xml(la.chain(4)), (0, 0), 1),
   "chain5": (la.xml(la.chain(5)), (0, 0), 1),
   "ytree4+fork3": (la.xml(la.ytree(), la.fork(4)), (0, 0), 1),
+  "chain6": (la.xml(la.chain(6)), (0, 0), 1),
+  "comb5": (la.xml("<body pos='.1 0 .3'>" + la._hinge(0) + "<body pos='0 .2 .1'>" + la._hinge(1) + "<body pos='0 .3 0'>" + la._hinge(2) + "<body pos='0 .3 .1'>" + la._hinge(3) + "</body></body><body pos='.2 0 .3'>" + la._hinge(4) + "</body></body></body>"), (0, 0), 1),
 }
 FAMILY = {"chol": CHOL, "ldl": LDL}
 MULM = {
@@ -506,7 +510,7 @@ def unit_mulm(name):
 def main(tier, seed, only=None):
   thorough = tier == "thorough"
   chol = ["chain2", "chain3", "mixed", "slides3+chain2", "chain4", "chain5", "chain6"]
-  ldl = ["chain2", "chain3", "fork3", "ytree4", "block+ldl"] + (["fork3+slide+chain2", "chain4", "chain5", "ytree4+fork3"] if thorough else [])
+  ldl = ["chain2", "chain3", "fork3", "ytree4", "block+ldl"] + (["fork3+slide+chain2", "chain4", "chain5", "ytree4+fork3", "chain6", "comb5"] if thorough else [])
   units = [unit_solve("chol", n, scratch=(n == "chain3"), leftinv=(n in ("chain5", "chain6"))) for n in chol]
   units += [unit_solve("ldl", n, scratch=(n in ("fork3", "block+ldl"))) for n in ldl]
   units += [unit_mulm(n) for n in MULM]
